@@ -14,11 +14,14 @@ import (
 
 const ScnAcct = 9
 
-type scnContract struct{ Name, Src string }
+type scnContract struct {
+	Name, Src string
+	Addr      uint64 // 0 = the scenario account
+}
 
 // contracts of the scenario world, deployed (to account 0x9) by the prelude of every plan that enables the family
 var scnContracts = []scnContract{
-	{"Far", `
+	{Name: "Far", Src: `
 access(all) contract Far {
     access(all) event Note(msg: String, n: Int)
     access(all) resource T {
@@ -62,7 +65,7 @@ access(all) contract Far {
     access(all) fun tagged(_ id: Int, _ l: String): @T { return <- attach Tag(l) to <- create T(id) }
     access(all) fun note(_ m: String, _ n: Int) { emit Note(msg: m, n: n) }
 }`},
-	{"Holder", `
+	{Name: "Holder", Src: `
 access(all) contract Holder {
     access(all) resource Box {
         access(all) event ResourceDestroyed(uuid: UInt64 = self.uuid, n: Int = self.n, many: Int = self.many.length)
@@ -82,7 +85,7 @@ access(all) contract Holder {
     }
     access(all) fun mk(_ n: Int): @Box { return <- create Box(n) }
 }`},
-	{"Cond", `
+	{Name: "Cond", Src: `
 access(all) contract Cond {
     access(all) var limit: Int
     access(all) var calls: Int
@@ -135,7 +138,7 @@ access(all) contract Cond {
     }
     init() { self.limit = 50; self.calls = 0 }
 }`},
-	{"Ext", `
+	{Name: "Ext", Src: `
 import Cond from 0x9
 access(all) contract Ext {
     access(all) struct Acc2: Cond.Limited {
@@ -153,7 +156,7 @@ access(all) contract Ext {
     access(all) fun mkG2(): @G2 { return <- create G2() }
     init() {}
 }`},
-	{"Slot", `
+	{Name: "Slot", Src: `
 import Far from 0x9
 access(all) contract Slot {
     access(all) var slot: @Far.T?
@@ -166,7 +169,34 @@ access(all) contract Slot {
     access(all) view fun occupied(): Bool { return self.slot != nil }
     init() { self.slot <- nil; self.shelf <- {} }
 }`},
-	{"Multi", `
+	// the same contract, name and declarations, in two accounts: A.09.Twin.S and A.0a.Twin.S are unrelated types
+	{Name: "Twin", Src: `access(all) contract Twin {
+    access(all) struct S {
+        access(all) let a: Int
+        init(_ a: Int) { self.a = a }
+    }
+    access(all) resource R {
+        access(all) event ResourceDestroyed(uuid: UInt64 = self.uuid)
+        access(all) let a: Int
+        init(_ a: Int) { self.a = a }
+    }
+    access(all) fun mkR(_ a: Int): @R { return <- create R(a) }
+    init() {}
+}`},
+	{Name: "Twin", Src: `access(all) contract Twin {
+    access(all) struct S {
+        access(all) let a: Int
+        init(_ a: Int) { self.a = a }
+    }
+    access(all) resource R {
+        access(all) event ResourceDestroyed(uuid: UInt64 = self.uuid)
+        access(all) let a: Int
+        init(_ a: Int) { self.a = a }
+    }
+    access(all) fun mkR(_ a: Int): @R { return <- create R(a) }
+    init() {}
+}`, Addr: 0xa},
+	{Name: "Multi", Src: `
 access(all) contract Multi {
     access(all) resource R {
         access(all) event ResourceDestroyed(uuid: UInt64 = self.uuid, n: Int = self.n)
@@ -203,7 +233,7 @@ access(all) contract Multi {
     access(all) fun strip(_ r: @R): @R { remove M1 from r; remove M4 from r; return <- r }
     init() {}
 }`},
-	{"Ent", `
+	{Name: "Ent", Src: `
 access(all) contract Ent {
     access(all) entitlement Read
     access(all) entitlement Write
@@ -661,6 +691,30 @@ var scenarios = []scenario{
         destroy k`, id+4)), Expect: []string{fmt.Sprint(id), fmt.Sprint(id + 4), "false", fmt.Sprint(id + 1)}},
 		}
 	}},
+	{"same-named-types", func(r *Rng) []scnStep {
+		v := r.Intn(1000)
+		other := impW + "import Twin from 0xa\n"
+		return []scnStep{
+			{Kind: "tx", Src: scnTx(impW+"import Twin from 0x9\n", fmt.Sprintf(`        s.storage.load<Twin.S>(from: /storage/scnTwinS)
+        if let old <- s.storage.load<@Twin.R>(from: /storage/scnTwinR) { destroy old }
+        s.storage.save(Twin.S(%d), to: /storage/scnTwinS)
+        s.storage.save(<- Twin.mkR(%d), to: /storage/scnTwinR)
+        log(s.storage.check<Twin.S>(from: /storage/scnTwinS))
+        log(s.storage.copy<Twin.S>(from: /storage/scnTwinS)!.a)`, v, v+1)), Expect: []string{"true", fmt.Sprint(v)}},
+			// the type argument is the same-named type of the OTHER account
+			{Kind: "tx", Src: scnTx(other, `        log(s.storage.check<Twin.S>(from: /storage/scnTwinS))
+        log(s.storage.check<@Twin.R>(from: /storage/scnTwinR))
+        log(s.storage.type(at: /storage/scnTwinS)!.identifier)
+        log(s.storage.type(at: /storage/scnTwinS)! == Type<Twin.S>())
+        log(s.storage.check<AnyStruct>(from: /storage/scnTwinS))`), Expect: []string{"false", "false", `"A.0000000000000009.Twin.S"`, "false", "true"}},
+			{Kind: "tx", Src: scnTx(other, `        log(s.storage.borrow<&Twin.S>(from: /storage/scnTwinS) == nil)`), Fails: "TypeMismatchError"},
+			{Kind: "tx", Src: scnTx(other, `        let c = s.storage.copy<Twin.S>(from: /storage/scnTwinS)
+        log(c?.a)`), Fails: "TypeMismatchError"},
+			{Kind: "tx", Src: scnTx(other, `        let c <- s.storage.load<@Twin.R>(from: /storage/scnTwinR)
+        destroy c`), Fails: "TypeMismatchError"},
+			{Kind: "script", Src: scnScript("import Twin from 0x9\n", "Int", "    let a = getAuthAccount<auth(Storage) &Account>(0x9)\n    return a.storage.copy<Twin.S>(from: /storage/scnTwinS)!.a + a.storage.borrow<&Twin.R>(from: /storage/scnTwinR)!.a"), Expect: []string{}},
+		}
+	}},
 	{"resource-juggling", func(r *Rng) []scnStep {
 		a, b := r.Intn(100), 100+r.Intn(100)
 		return []scnStep{{Kind: "tx", Src: scnTx(impW+"import Far from 0x9\nimport Holder from 0x9\n", fmt.Sprintf(`        var x <- Far.mk(%d)
@@ -806,7 +860,11 @@ var scenarios = []scenario{
 func scnPrelude() []Step {
 	var steps []Step
 	for _, c := range scnContracts {
-		steps = append(steps, Step{Kind: "deploy", Name: c.Name, Source: strings.TrimSpace(c.Src), Signers: []uint64{ScnAcct}})
+		a := uint64(ScnAcct)
+		if c.Addr != 0 {
+			a = c.Addr
+		}
+		steps = append(steps, Step{Kind: "deploy", Name: c.Name, Source: strings.TrimSpace(c.Src), Signers: []uint64{a}})
 	}
 	return steps
 }
